@@ -461,7 +461,7 @@ def transform_fn(text, spec):
        rename: str | None    r7: set of loop ordinals to rewrite (or 'auto')
     Returns transformed text."""
     rules = spec.get('rules', set())
-    text = strip_attrs_and_vis(text)
+    text = strip_attrs_and_vis(text, plain=bool(spec.get('plain')))
     sh = FnShape(text)
     t, m = sh.text, sh.m
     edits = []
